@@ -166,7 +166,8 @@ func genBoundaryEdits(r *rand.Rand, g *gen, sc *scenario, sh *treeShape, hole [2
 		first, last := leaves[j][0], leaves[j][1]
 		cls := []string{"boundary-update-one-side", "boundary-both-adjacent", "boundary-cellwise", "boundary-same-cell-conflict", "boundary-delete",
 			"boundary-delete-vs-modify", "boundary-insert", "whole-chunk-delete", "whole-chunk-delete-vs-modify", "whole-chunk-delete-both",
-			"whole-chunk-insert", "whole-chunk-insert-both-same", "whole-chunk-insert-overlap-different", "every-nth-leaf"}[r.Intn(14)]
+			"whole-chunk-insert", "whole-chunk-insert-both-same", "whole-chunk-insert-overlap-different", "every-nth-leaf",
+			"same-edit-both+whole-chunk-delete-adjacent", "same-edit-both+whole-chunk-delete-adjacent", "same-insert-both+whole-chunk-delete-adjacent"}[r.Intn(17)]
 		sc.Classes[cls]++
 		switch cls {
 		case "boundary-update-one-side":
@@ -233,6 +234,51 @@ func genBoundaryEdits(r *rand.Rand, g *gen, sc *scenario, sh *treeShape, hole [2
 				}
 				emit(b, batchInsert(g, b, half, p2)...)
 			}
+		case "same-edit-both+whole-chunk-delete-adjacent":
+			// both sides make the identical edit inside leaf j (so both produce the same new chunk), one side also removes
+			// the whole leaf before or after it
+			c := col()
+			k := first
+			if r.Intn(2) == 0 {
+				k = last
+			}
+			if row := sc.Base.Rows[k]; row != nil {
+				set := map[string]string{c.Name: g.otherValue(c, row[c.Name])}
+				emit(a, g.updateCells(a, k, set))
+				emit(b, g.updateCells(b, k, set))
+			}
+			adj := j - 1
+			if r.Intn(2) == 0 {
+				adj = j + 1
+			}
+			if adj >= 0 && adj < len(leaves) {
+				who := a
+				if r.Intn(2) == 0 {
+					who = b
+				}
+				emit(who, rangeDelete(who, leaves[adj][0], leaves[adj][1]))
+			}
+		case "same-insert-both+whole-chunk-delete-adjacent":
+			// identical run of new rows at the start of the hole on both sides; one side also removes the leaf just before it
+			n := 60 + r.Intn(120)
+			var pks []int64
+			preset := map[int64]map[string]string{}
+			for k := hole[0]; k < hole[0]+int64(n); k++ {
+				pks = append(pks, k)
+				row := map[string]string{"filler": fmt.Sprintf("s%d-%s", k, strings.Repeat("z", 150+r.Intn(60)))}
+				for _, c := range sc.Base.Cols[:3] {
+					row[c.Name] = g.value(c)
+				}
+				preset[k] = row
+			}
+			emit(a, batchInsert(g, a, pks, preset)...)
+			emit(b, batchInsert(g, b, pks, preset)...)
+			for li := len(leaves) - 1; li >= 0; li-- {
+				if leaves[li][1] < hole[0] {
+					emit(b, rangeDelete(b, leaves[li][0], leaves[li][1]))
+					break
+				}
+			}
 		case "every-nth-leaf":
 			step := 3 + r.Intn(5)
 			for i := r.Intn(step); i < len(leaves); i += step {
@@ -279,7 +325,7 @@ func c30(c *rig.Ctx) {
 	paths.install()
 	l := newLimiter(c)
 	cnt := newCounters()
-	n := c.Pick(44, 1500)
+	n := c.Pick(44, 700)
 	forCases(srv, n, 6, nil, l.tooMany, func(i int, x *sqlrig.Session) {
 		r := c.SubRand("c30", i)
 		g := newGen(r)
@@ -482,6 +528,7 @@ func c30(c *rig.Ctx) {
 	c.Require(cnt.get("pairs.tree_height>=3") > 0, "no genuine pair on a table of tree height >= 3")
 	c.Require(cnt.get("pairs.check") > 0 && cnt.get("pairs.index") > 0, "a disqualifier kind was never part of a genuine pair")
 	c.Require(cnt.sumPrefix("class.whole-chunk-delete") > 0 && cnt.sumPrefix("class.whole-chunk-insert") > 0, "no whole-chunk insert / delete was generated")
+	c.Require(cnt.sumPrefix("class.same-edit-both") > 0, "no identical-chunk-on-both-sides next to a whole-chunk delete was generated")
 }
 
 // observeTwin merges (--no-commit) on one twin and collects everything that is compared.
